@@ -127,6 +127,9 @@ pub struct PoolCfg {
     /// the time the service is used
     #[serde(default)]
     pub built_on_other_runtime: bool,
+    /// stub connections become busy when the send_request future is first polled, not in the call
+    #[serde(default)]
+    pub lazy_send: bool,
 }
 
 #[derive(Clone, Debug, Serialize, Deserialize)]
@@ -361,6 +364,7 @@ fn gen_cfg(profile: &str, r: &mut Rng) -> PoolCfg {
         open_while_busy: matches!(profile, "C02" | "C05" | "C17") && r.chance(1, 3),
         pool_lock_contended: r.chance(1, 3),
         built_on_other_runtime: r.chance(1, 4),
+        lazy_send: r.chance(1, 3),
     }
 }
 
@@ -1929,6 +1933,7 @@ impl PoolSim {
                 let mut ww = w.lock();
                 ww.idle_timeout_ms = case.cfg.idle_timeout_ms;
                 ww.open_while_busy = case.cfg.open_while_busy;
+                ww.lazy_send = case.cfg.lazy_send;
                 ww.trace = std::env::var("VERIF_TRACE").is_ok();
                 ww.t0 = Some(tokio::time::Instant::now());
                 for i in &case.cfg.alpn_h2 {
@@ -2134,6 +2139,11 @@ impl Scenario for PoolSim {
         if case.cfg.built_on_other_runtime {
             let mut c = case.clone();
             c.cfg.built_on_other_runtime = false;
+            v.push(c);
+        }
+        if case.cfg.lazy_send {
+            let mut c = case.clone();
+            c.cfg.lazy_send = false;
             v.push(c);
         }
         if case.cfg.idle_timeout_ms.is_some() {
